@@ -221,6 +221,9 @@ def cache_type(method: Method) -> Method:
     @wraps(method)
     def wrapper(self: "SchemaBuilder", *args, **kwargs):
         factory = method(self, *args, **kwargs)
+        # Types built for a flattened field have dedicated resolvers (accessing the
+        # flattened object first), they must not be shared with the regular type
+        flattened = getattr(self, "get_flattened", None) is not None
 
         @wraps(factory.factory)
         def name_cache(
@@ -229,6 +232,8 @@ def cache_type(method: Method) -> Method:
             if name is None:
                 tp = factory.factory(name, description)
                 return graphql.GraphQLNonNull(tp) if tp is not JSON_SCALAR else tp
+            if flattened:
+                return graphql.GraphQLNonNull(factory.factory(name, description))
             # Method is in cache key because scalar types will have the same method,
             # and then be shared by both visitors, while input/output types will have
             # their own cache entry.
@@ -622,7 +627,10 @@ class OutputSchemaBuilder(
         def resolve(obj, _):
             return partial_serialize(getattr(obj, field_name))
 
-        factory = self.visit_with_conv(field.type, field.serialization)
+        with context_setter(self):
+            # the type of the field is not flattened itself
+            self.get_flattened = None
+            factory = self.visit_with_conv(field.type, field.serialization)
         field_schema = get_field_schema(tp, field)
         return lambda: graphql.GraphQLField(
             factory.type,
@@ -698,7 +706,12 @@ class OutputSchemaBuilder(
                     )
 
                 args[self.aliaser(param_field.alias)] = arg_thunk
-        factory = self.visit_with_conv(field.types["return"], field.resolver.conversion)
+        with context_setter(self):
+            # the returned type is not flattened itself
+            self.get_flattened = None
+            factory = self.visit_with_conv(
+                field.types["return"], field.resolver.conversion
+            )
         field_schema = get_method_schema(tp, field.resolver)
         return lambda: graphql.GraphQLField(
             factory.type,
